@@ -473,10 +473,29 @@ pub fn check_paths(h: &History, obs: &mut Obs) -> Vec<Violation> {
 /// recordings without frames, with an audio track that never got a frame, every codec, both
 /// layouts, with and without metadata. Whatever they leave behind in process-wide state (caches
 /// filled by the first caller, lazily initialised statics) must not change later results.
-pub fn prelude() {
+pub fn prelude(variant: u8) {
     use crate::gen::frames::{audio_frame, video_frame, FrameKind};
     let mut r = crate::util::Rng::new(0xC17_0001);
     let no_seq = |_q: u32| {};
+    if variant == 2 {
+        // the opposite kind of first caller: complete A/V recordings with several frames per
+        // track come first (a first-caller-wins cache is then filled from a populated track,
+        // not from an empty one as in variant 1)
+        for vc in [VP9, AV1, H265, H264] {
+            for audio in [AudioCfg { kind: A_OPUS, rate: 48_000, channels: 2 }, AudioCfg { kind: 1, rate: 44_100, channels: 1 }] {
+                let mut cfg = Cfg::basic(vc);
+                cfg.audio = Some(audio.clone());
+                cfg.fast_start = Some(vc == H264 || vc == AV1);
+                let mut ops = vec![Op::wv(0.0, video_frame(&mut r, vc, FrameKind::KeyCfg, 8, false), true)];
+                for i in 0..3 {
+                    ops.push(Op::wa(i as f64 * 0.02, audio_frame(&mut r, &audio, 8)));
+                }
+                ops.push(Op::wv(0.04, video_frame(&mut r, vc, FrameKind::Delta, 8, false), false));
+                ops.push(Op::Finish(FinishKind::InPlaceStats));
+                let _ = run_on(Vec::<u8>::new(), &History { cfg, ops }, &ExecOpts::default(), &no_seq);
+            }
+        }
+    }
     for vc in [H264, H265, AV1, VP9] {
         for audio in [None, Some(AudioCfg { kind: 1, rate: 44_100, channels: 1 }), Some(AudioCfg { kind: A_OPUS, rate: 48_000, channels: 2 })] {
             for frames in [0usize, 1] {
